@@ -365,6 +365,46 @@ def _stable_place(e, assigned):
     return e is not None and e.get("k") == "path" and e.get("res") == "local" and e.get("id") not in assigned
 
 
+def _pos_in_params(clo, e):
+    """Position of local `e` in the closure's parameter patterns (`cp0>tuple.1`), or None."""
+    from vlib import q as _q
+    while e is not None and e.get("k") in ("unary", "addrof"):
+        e = e.get("e")
+    if e is None or e.get("k") != "path" or e.get("res") != "local":
+        return None
+    for i, p in enumerate(clo.get("params", [])):
+        for lid, pos in _q.pat_positions(p, "cp%d" % i):
+            if lid == e["id"]:
+                return pos
+    return None
+
+
+def _filter_guard(clo, host, a, b):
+    if host is None or host.get("k") != "mcall" or clo not in host.get("args", []):
+        return None
+    pb, pa = _pos_in_params(clo, b), _pos_in_params(clo, a)
+    r = host.get("recv")
+    while r is not None and r.get("k") == "mcall":
+        if r["name"] in ("filter", "take_while", "skip_while") and r.get("args") and r["args"][0].get("k") == "closure" and r["name"] != "skip_while":
+            fc = r["args"][0]
+            body = fc["body"]
+            while body.get("k") == "block" and not body.get("stmts") and body.get("e") is not None:
+                body = body["e"]
+            for c in _conjuncts(body):
+                if c.get("k") != "binary" or c.get("op") not in ("<=", "<", ">=", ">"):
+                    continue
+                lo, hi = (c["l"], c["r"]) if c["op"] in ("<=", "<") else (c["r"], c["l"])      # lo <= hi
+                # `b` is an element component: same position in both closures; `a` an outer value: same rendering (or the same position)
+                same_b = pb is not None and _pos_in_params(fc, lo) == pb
+                same_a = (pa is not None and _pos_in_params(fc, hi) == pa) or (pa is None and _pos_in_params(fc, hi) is None and fb.show(hi) == fb.show(a))
+                if same_b and same_a:
+                    return "elements reach this closure only through `.%s(%s)`: the subtraction cannot underflow" % (r["name"], fb.show(c))
+        if r["name"] in ("map", "flat_map", "filter_map", "scan", "zip"):
+            break          # the element changed shape: positions are no longer comparable
+        r = r.get("recv")
+    return None
+
+
 def _sub_guarded(fn, span):
     """`a - b` in the then-branch of `if b <= a` (or `a >= b`, `b < a`, `a > b`) with a and b places that are never assigned: cannot underflow."""
     if not span or fn.body is None:
@@ -386,7 +426,7 @@ def _sub_guarded(fn, span):
                 return None
             sa, sb = fb.show(a), fb.show(b)
             child = node
-            for p in reversed(parents):
+            for pi_, p in enumerate(reversed(parents)):
                 if p.get("k") == "if" and child is p.get("t"):
                     for c in _conjuncts(p["c"]):
                         if c.get("k") == "binary":
@@ -394,6 +434,12 @@ def _sub_guarded(fn, span):
                             if (op in ("<=", "<") and l == sb and r == sa) or (op in (">=", ">") and l == sa and r == sb):
                                 return "then-branch of `if %s`: the subtraction cannot underflow" % fb.show(c)
                 if p.get("k") == "closure":
+                    # `..filter(|(_, &b)| b <= a)..map(|(i, &b)| a - b)`: only elements that passed the filter reach the closure
+                    idx = len(parents) - 1 - pi_
+                    host = parents[idx - 1] if idx > 0 else None
+                    g = _filter_guard(p, host, a, b)
+                    if g:
+                        return g
                     break
                 child = p
             return None
